@@ -114,6 +114,36 @@ func floatGuard(w Facts, textDesc string) (intLike, notIntLike bool, unknown []s
 			unknown = append(unknown, atom)
 		}
 	}
+	// the same tests written as index searches: IndexByte(text, '.') < 0 and the like
+	for _, nd := range []byte{'.', 'e'} {
+		if v, known := knownContains(w, textDesc, nd); known {
+			if v {
+				notIntLike = true
+			} else if nd == '.' {
+				noDot = true
+			} else {
+				noE = true
+			}
+		}
+	}
+	for atom := range w {
+		if !strings.Contains(atom, textDesc) {
+			continue
+		}
+		for _, pre := range []string{"lt(strings.Index", "lt(bytes.Index", "lt(-1,strings.Index", "lt(-1,bytes.Index", "eq(-1,strings.Index", "eq(-1,bytes.Index"} {
+			if strings.HasPrefix(atom, pre) {
+				okNeedle := false
+				for _, nd := range []string{", 46)", ", 101)", `, ".")`, `, "e")`} {
+					if strings.Contains(atom, textDesc+nd) {
+						okNeedle = true
+					}
+				}
+				if !okNeedle {
+					unknown = append(unknown, atom)
+				}
+			}
+		}
+	}
 	intLike = noDot && noE
 	return
 }
